@@ -17,7 +17,9 @@ RULE = (
     "products: ALL 65536 operand pairs.  Encoder: the zero message and ALL 9x255 single-symbol messages x the masks "
     "{000000, 969696, 999999} (complete basis), two-symbol messages (all 36 position pairs x sampled first value x ALL 255 "
     "second values; thorough: all 36x255x255), Hypothesis-drawn messages (uniform, sparse, and constructed so that a "
-    "quotient symbol of the division is 0 while the register is loaded) x masks (standard's and random), GF(2)- and "
+    "quotient symbol of the division is 0 while the register is loaded) x masks, messages with three symbols solved over "
+    "GF(256) on the reference so that the returned parity octets are an edge value (000000, ffffff, 000001, 800000, "
+    "fffffe, 7fffff, the mask, its complement) under each standard mask (standard's and random), GF(2)- and "
     "GF(256)-linearity and mask-is-XOR relations on Hypothesis-drawn pairs.  Checker: Hypothesis-drawn 12-octet words of "
     "the classes {random, generated, generated under another mask, generated + error in 1..12 symbols, sum of two "
     "codewords} compared with the reference syndrome test in both directions.  Faults: per sampled (message, mask) ALL "
@@ -124,6 +126,29 @@ def oracle_two_symbol(case):
         probe = exp
     if gf256.syndromes(gf256.unmask(list(probe), list(mask))) != [0, 0, 0]:
         raise HarnessError("fast reference parity is wrong")
+
+
+def oracle_extreme_parity(case):
+    """case = {msg: hex18, mask: hex6, want: hex6}: a message CONSTRUCTED (3x3 system over GF(2^8) on the reference) so that
+    the three parity octets generate() returns under this mask are exactly an edge value (00 00 00, FF FF FF, 00 00 01,
+    80 00 00, FF FF FE, 7F FF FF, the mask itself, its complement).  The reference must hit it (else harness error); then
+    the generate clauses, and check() rejects every single-bit neighbour and parity +-1 as a 24-bit number incl. wrap-around."""
+    msg, mask, want = bytes.fromhex(case["msg"]), bytes.fromhex(case["mask"]), bytes.fromhex(case["want"])
+    ref = bytes(gf256.rs_encode(list(msg), list(mask)))
+    if ref[9:] != want:
+        raise HarnessError(f"construction failed: reference parity {ref[9:].hex()} is not {want.hex()}")
+    oracle_generate({"msg": case["msg"], "mask": case["mask"]})
+    word = _generate(msg, mask)
+    if word[9:] != want:
+        raise Fail("zero_syndromes_with_mask_removed", word.hex(), ref.hex(), "extreme_parity")
+    p = int.from_bytes(want, "big")
+    for q in sorted(({p ^ (1 << k) for k in range(24)} | {(p + 1) % (1 << 24), (p - 1) % (1 << 24)}) - {p}):
+        w = msg + q.to_bytes(3, "big")
+        if gf256.is_codeword(list(w), list(mask)):
+            raise HarnessError("a word differing from a codeword only in the parity octets cannot be a codeword")
+        ok = call(RS().check, w, mask)[1]
+        if ok is not False:
+            raise Fail("checker_accepts_exactly_zero_syndrome_words", {"word": w.hex(), "check": ok}, {"word": w.hex(), "check": False}, "neighbour_of_extreme_parity")
 
 
 def _xor(a: bytes, b: bytes) -> bytes:
@@ -259,6 +284,39 @@ def drv_two_symbol(ctx: Ctx, sub: SubCheck):
     ctx.shards(work, items)
     ctx.tally.exhaustive[sub.name] = complete
     ctx.tally.notes.append("generate_two_symbol: " + ("ALL 36*255*255 = 2340900 two-symbol messages" if complete else "all 36 position pairs x 12 sampled first values x all 255 second values"))
+
+
+EXTREME_PARITY = {"zero": "000000", "all_ones": "ffffff", "one": "000001", "top_bit_only": "800000", "all_ones_minus_1": "fffffe", "top_bit_clear": "7fffff"}
+
+
+def drv_extreme_parity(ctx: Ctx, sub: SubCheck):
+    rng = ctx.rng("extreme_parity")
+    triples = [(6, 7, 8), (0, 1, 2), (0, 4, 8)] + [tuple(sorted(rng.sample(range(9), 3))) for _ in range(5)]
+    items = []
+    for tr in triples:
+        bases = [bytes(9), bytes(rng.getrandbits(8) for _ in range(9)), bytes(rng.getrandbits(8) for _ in range(9))]
+        for base in bases:
+            for mk in sorted(STD_MASKS.values()):
+                items.append((tr, base.hex(), mk))
+
+    def work(it, t: Tally):
+        tr, base, mk = it
+        mask = bytes.fromhex(mk)
+        targets = dict(EXTREME_PARITY)
+        if mk != "000000":
+            targets["equals_mask"] = mk
+            targets["complement_of_mask"] = bytes(x ^ 0xFF for x in mask).hex()
+        for name, want in targets.items():
+            unmasked = [x ^ y for x, y in zip(bytes.fromhex(want), mask)]
+            m = bytes(gf256.steer_parity(list(bytes.fromhex(base)), tr, unmasked))
+            case = {"msg": m.hex(), "mask": mk, "want": want}
+            ctx.run_case(sub.name, oracle_extreme_parity, case, t)
+            t.case(sub.name, key=case, nontrivial=_nz(case["msg"]) >= 2, cls=f"{name}:mask_{mk}")
+            if name == "all_ones" and tr == (6, 7, 8):
+                t.sample(sub.name, case)
+
+    ctx.shards(work, items, chunksize=4)
+    ctx.tally.notes.append("extreme_parity: 8 position triples x 3 base messages x 3 standard masks x 6..8 edge values of the returned parity octets; messages solved on the reference")
 
 
 def _st():
@@ -470,6 +528,7 @@ SUBCHECKS = [
     SubCheck("multiply", oracle_multiply, drv_multiply, "all 65536 products == shift-and-add GF(2^8) modulo 0x11D"),
     SubCheck("generate_basis", oracle_generate, drv_generate_basis, "zero + all 9x255 single-symbol messages x 3 masks: systematic, zero syndromes, accepted"),
     SubCheck("generate_two_symbol", oracle_two_symbol, drv_two_symbol, "two-symbol messages (complete in thorough): generate == message || reference parity ^ mask"),
+    SubCheck("extreme_parity", oracle_extreme_parity, drv_extreme_parity, "messages constructed so that the returned parity octets are 000000 / ffffff / 000001 / 800000 / fffffe / 7fffff / mask / ~mask under each standard mask"),
     SubCheck("generate_random", oracle_generate, drv_generate_random, "Hypothesis messages x masks: systematic, zero syndromes with the mask removed, accepted"),
     SubCheck("linearity", oracle_linearity, drv_linearity, "generate is GF(256)-linear with mask 0 and the mask is an XOR on the parity octets"),
     SubCheck("check_word", oracle_check_word, drv_check_word, "check(word, mask) == zero syndromes of the unmasked word, both directions"),
